@@ -1,6 +1,6 @@
 (** Properties/C17.v — "Bytes before the header do not change what is read".
     Only statements, each closed by [exact] of a lemma proved in XRef/. *)
-From PdfV Require Import Base.Prelude Gen.Generated XRef.Model XRef.Spec XRef.HeaderProofs XRef.FrontProofs.
+From PdfV Require Import Base.Prelude Gen.Generated XRef.Model XRef.Spec XRef.HeaderProofs XRef.FrontProofs XRef.LexShift XRef.At XRef.ParseShift XRef.PrefixProofs XRef.AtProofs Syn.Prim Syn.Parser.
 Set Warnings "-notation-overridden".   (* also ends the import list for the dependency scanner of tools/vplib *)
 
 (** A marker without proper border (no proper suffix is a prefix) cannot straddle the end of a prefix
@@ -39,15 +39,15 @@ Theorem C17_load_invariant : forall (xref_at : bytes -> N -> res (list section *
 Proof. exact load_prefix. Qed.
 Print Assumptions C17_load_invariant.
 
-(** Resolving any object number (direct, compressed, free, missing): the same outcome, absolute file
-    ranges inside the value moved by |p| — for tables whose offsets do not make `start_offset + pos`
-    overflow (see C17_full_statement / C17_resolve_overflow_refuted). *)
+(** Resolving any object number (direct, compressed, free, missing) through any cross-reference table:
+    the same outcome, absolute file ranges inside the value moved by |p|.  No exclusion is left:
+    `start_offset + pos` is a checked addition now (see C17_resolve_overflow_refuted_before_fix). *)
 Theorem C17_resolve_invariant : forall (value : Type) (obj_at : bytes -> N -> res value)
     (member : bytes -> value -> N -> res value) (shift : N -> value -> value) (p f : bytes),
   (forall pos, obj_at (p ++ f) (lenN p + pos) = rmap (shift (lenN p)) (obj_at f pos)) ->
   (forall v i, member (p ++ f) (shift (lenN p) v) i = rmap (shift (lenN p)) (member f v i)) ->
-  lenN (p ++ f) < usize_max -> lenN p + lenN xr_header <= xr_header_window ->
-  forall t, offsets_small p t -> forall fuel id,
+  lenN (p ++ f) < usize_max ->
+  forall t fuel id,
   resolve_ref value obj_at member fuel (p ++ f) (lenN p) t id
   = rmap (shift (lenN p)) (resolve_ref value obj_at member fuel f 0 t id).
 Proof. exact resolve_prefix. Qed.
@@ -63,30 +63,103 @@ Theorem C17_scan_invariant : forall (value : Type) (scan_slice : bytes -> bytes 
 Proof. exact scan_prefix. Qed.
 Print Assumptions C17_scan_invariant.
 
-(** The statement without the exclusion is false of the faithful model: *)
+(** The full statement (every table, every object number; the only premise besides the parser oracles is
+    that the prefixed file is an addressable slice, |p ++ f| < 2^64) — proved since the repair of C17-b. *)
 Definition C17_full_statement : Prop :=
   forall (value : Type) (obj_at : bytes -> N -> res value) (member : bytes -> value -> N -> res value)
     (shift : N -> value -> value) (p f : bytes),
   (forall pos, obj_at (p ++ f) (lenN p + pos) = rmap (shift (lenN p)) (obj_at f pos)) ->
   (forall v i, member (p ++ f) (shift (lenN p) v) i = rmap (shift (lenN p)) (member f v i)) ->
+  lenN (p ++ f) < usize_max ->
   forall t fuel id,
   resolve_ref value obj_at member fuel (p ++ f) (lenN p) t id
   = rmap (shift (lenN p)) (resolve_ref value obj_at member fuel f 0 t id).
 
-Theorem C17_resolve_overflow_refuted :
-  exists (t : table) (p f : bytes) (id : N),
-    resolve_ref N (fun _ _ => Ok 0) (fun _ _ _ => Ok 0) 2 f 0 t id = Err E_BOUNDS /\
-    resolve_ref N (fun _ _ => Ok 0) (fun _ _ _ => Ok 0) 2 (p ++ f) (lenN p) t id = Panic 204.
-Proof. exact resolve_prefix_overflow_refuted. Qed.
-Print Assumptions C17_resolve_overflow_refuted.
+Theorem C17_full_statement_proved : C17_full_statement.
+Proof. exact resolve_prefix. Qed.
+Print Assumptions C17_full_statement_proved.
 
-Theorem C17_full_statement_refuted : ~ C17_full_statement.
-Proof.
-  intros H. destruct resolve_prefix_overflow_refuted as [t [p [f [id [H1 H2]]]]].
-  specialize (H N (fun _ _ => Ok 0) (fun _ _ _ => Ok 0) (fun _ v => v) p f (fun _ => eq_refl) (fun _ _ => eq_refl) t 2%nat id).
-  rewrite H1, H2 in H. discriminate.
-Qed.
-Print Assumptions C17_full_statement_refuted.
+(** resolve_ref itself has no panic site left: with parser oracles that do not panic it does not panic. *)
+Theorem C17_resolve_no_panic : forall (value : Type) (obj_at : bytes -> N -> res value) (member : bytes -> value -> N -> res value),
+  (forall fl pos, no_panic (obj_at fl pos) \/ obj_at fl pos = OutOfFuel) ->
+  (forall fl v i, no_panic (member fl v i) \/ member fl v i = OutOfFuel) ->
+  forall fuel file start t id,
+  match resolve_ref value obj_at member fuel file start t id with Panic _ => False | _ => True end.
+Proof. exact resolve_ref_no_panic. Qed.
+Print Assumptions C17_resolve_no_panic.
+
+(** Before the repair (file.rs:247, unchecked `start_offset + pos`): offset 2^64-1 and one byte before the
+    header — error value without the prefix, panic with it; the repaired function reports the same error. *)
+Theorem C17_resolve_overflow_refuted_before_fix :
+  exists (t : table) (p f : bytes) (id : N),
+    resolve_ref_old N (fun _ _ => Ok 0) (fun _ _ _ => Ok 0) 2 f 0 t id = Err E_BOUNDS /\
+    resolve_ref_old N (fun _ _ => Ok 0) (fun _ _ _ => Ok 0) 2 (p ++ f) (lenN p) t id = Panic 204 /\
+    resolve_ref N (fun _ _ => Ok 0) (fun _ _ _ => Ok 0) 2 (p ++ f) (lenN p) t id = Err E_BOUNDS.
+Proof. exact resolve_prefix_overflow_refuted. Qed.
+Print Assumptions C17_resolve_overflow_refuted_before_fix.
+
+(** The lexer position only labels (Lexer::with_offset): the same bytes lexed at a position moved by d give the
+    same lexeme, its start and the lexer state moved by d. *)
+Theorem C17_lexer_position : forall d s, next_word (shift_lx d s) = rmap (shift_word d) (next_word s).
+Proof. exact next_word_shift. Qed.
+Print Assumptions C17_lexer_position.
+
+(** … and so does the object parser: same value, file ranges of streams moved by d (shift_prim), for all
+    inputs, flags, depths, contexts and fuels — the premise "the parser reads only the slice it is given and
+    the offset only labels reported ranges" of the theorems above, proved for the shared parser model. *)
+Theorem C17_parser_position : forall d fuel R cx flags depth s,
+  parse_fuel fuel R cx flags depth (shift_lx d s) = rmap (shift_pv d) (parse_fuel fuel R cx flags depth s).
+Proof. intros d fuel. exact (proj1 (parse_shift d fuel)). Qed.
+Print Assumptions C17_parser_position.
+
+(** The oracle premises of C17_load_invariant and C17_resolve_invariant hold for the concrete readers of
+    classic-table files (XRef/At.v) … *)
+Theorem C17_xref_at_prefix : forall (R : resolver) (tid : dict -> N) (p f : bytes),
+  (forall e, tid (shift_dict (lenN p) e) = tid e) ->
+  forall pos, xref_at_tables R tid (p ++ f) (lenN p + pos) = xref_at_tables R tid f pos.
+Proof. exact xref_at_tables_prefix. Qed.
+Print Assumptions C17_xref_at_prefix.
+
+Theorem C17_obj_at_prefix : forall (R : resolver) (p f : bytes) allow flags pos,
+  obj_at_parse R allow flags (p ++ f) (lenN p + pos) = rmap (shift_prim (lenN p)) (obj_at_parse R allow flags f pos).
+Proof. exact obj_at_parse_prefix. Qed.
+Print Assumptions C17_obj_at_prefix.
+
+(** … hence, with NO parser oracle: for every file f with the header at offset 0 (well-formed or not) and every
+    prefix p that does not contain the marker and leaves the header inside the window, loading through classic
+    tables gives the same table and the same trailer, and every object number resolves to the same outcome with
+    the file ranges of streams moved by |p|.  (Cross-reference streams and object streams are outside these
+    concrete readers: there the theorems above keep their oracle premises.) *)
+Theorem C17_tables_invariant : forall (R : resolver) (tid : dict -> N) allow flags (p f : bytes),
+  (forall e, tid (shift_dict (lenN p) e) = tid e) ->
+  lenN (p ++ f) < usize_max ->
+  starts_with xr_header f = true -> find_sub xr_header p = None -> lenN p + lenN xr_header <= xr_header_window ->
+  (forall s t i, load (xref_at_tables R tid) f = Ok (s, t, i) -> s = 0 /\ load (xref_at_tables R tid) (p ++ f) = Ok (lenN p, t, i)) /\
+  (forall t fuel id,
+     resolve_ref prim (obj_at_parse R allow flags) (fun _ _ _ => Err E_OTHER) fuel (p ++ f) (lenN p) t id
+     = rmap (shift_prim (lenN p)) (resolve_ref prim (obj_at_parse R allow flags) (fun _ _ _ => Err E_OTHER) fuel f 0 t id)).
+Proof. exact tables_prefix_invariant. Qed.
+Print Assumptions C17_tables_invariant.
+
+(** C17 and C02 together, no oracle: a well-formed classic-table file (the premises of C02_resolve_latest) behind
+    any marker-free prefix inside the window opens with the header at |p| and the newest trailer, and every number
+    below /Size resolves to the object the newest mention points to (stream ranges moved by |p|), FreeObject or NullRef. *)
+Theorem C17_resolve_latest_prefixed : forall R tid allow (p file : bytes) (h : history) secss q0 secs0 d0 older size,
+  (forall e, tid (shift_dict (lenN p) e) = tid e) ->
+  find_sub xr_header p = None -> lenN p + lenN xr_header <= xr_header_window -> lenN (p ++ file) < usize_max ->
+  Forall2 represents secss h -> wf_history h ->
+  map snd ((q0, secs0) :: older) = rev secss ->
+  starts_with xr_header file = true -> startxref_at file q0 ->
+  section_at file q0 secs0 d0 -> t_size (tinfo_of tid d0) = Some size -> size <= xr_max_id ->
+  chain_at tid file 0 (t_prev (tinfo_of tid d0)) older -> NoDup (map fst older) ->
+  (forall n g pos, latest h n = Some (Direct g pos) -> exists v, object_at file pos n g v) ->
+  (forall n s i, latest h n <> Some (Compressed s i)) ->
+  exists t, load (xref_at_tables R tid) (p ++ file) = Ok (lenN p, t, tid d0) /\
+    forall n fuel, n < size ->
+      stored_shifted (lenN p) file n (latest h n)
+        (resolve_ref prim (obj_at_parse R allow F_ANY) (fun _ _ _ => Err E_OTHER) (S fuel) (p ++ file) (lenN p) t n).
+Proof. exact resolve_latest_tables_prefixed. Qed.
+Print Assumptions C17_resolve_latest_prefixed.
 
 (** scan before the repair (file.rs:198-201): unshifted range end, lexer offset 0, unwrap. *)
 Theorem C17_scan_refuted_before_fix :
